@@ -240,6 +240,12 @@ def body_parse(ctx, case):
     with contextlib.redirect_stdout(io.StringIO()):
         res = ctx.must("parse_raises", eng.parse, m.copy(), case["ds"])
     b_list, h_list, t_list = res
+    # what was decoded for this page stays what it is while the same engine decodes the next page
+    snap = [np.array(a, dtype=np.float64, copy=True) for a in list(b_list) + list(t_list)] + [np.array(h_list, dtype=np.float64)]
+    with contextlib.redirect_stdout(io.StringIO()):
+        ctx.must("parse_raises", eng.parse, np.ascontiguousarray(m[:, ::-1]).copy(), case["ds"])
+    now = [np.asarray(a, dtype=np.float64) for a in list(b_list) + list(t_list)] + [np.asarray(h_list, dtype=np.float64)]
+    ctx.check(all(x.shape == y.shape and np.array_equal(x, y) for x, y in zip(now, snap)), "lines_of_an_earlier_page_changed_by_a_later_page", desc)
     match_lines(ctx, case, b_list, h_list, t_list, desc)
     for b in b_list:
         xs = np.asarray(b)[:, 0]
